@@ -345,6 +345,38 @@ func TestVerif_C05(t *testing.T) {
 				rep.Count("steps_breaking_only_clauses_of_C04", 1)
 				return true
 			}
+			// what a deletion request removed is gone for every query, not only for the listing:
+			// asked for by id, by author and kind, and by each of its single-letter tags
+			if e.Kind == 5 && len(after) < len(before)+1 {
+				still := map[string]bool{}
+				for _, x := range after {
+					still[x.ID] = true
+				}
+				for _, x := range before {
+					if still[x.ID] {
+						continue
+					}
+					fs := []*mocrelay.ReqFilter{{IDs: []string{x.ID}}, {Authors: []string{x.Pubkey}, Kinds: []int64{x.Kind}}}
+					for _, t := range x.Tags {
+						if len(t) >= 1 && len(t[0]) == 1 {
+							v := ""
+							if len(t) >= 2 {
+								v = t[1]
+							}
+							fs = append(fs, &mocrelay.ReqFilter{Tags: map[string][]string{t[0]: {v}}})
+						}
+					}
+					for _, f := range fs {
+						for _, y := range c.Find([]*mocrelay.ReqFilter{f}) {
+							if y.ID == x.ID {
+								rep.Violation("query/removed-event-still-served", fmt.Sprintf("event %.8s left the store when deletion request %.8s was inserted, but the query %s still returns it", x.ID, e.ID, vk.JSON(f)), histWitness(capacity, hs))
+								return false
+							}
+						}
+					}
+					rep.Count("removed_events_asked_for_by_id_author_and_tags", 1)
+				}
+			}
 			// a retained deletion request is served like a regular event: a kinds=[5]
 			// query must list exactly the retained kind 5 events
 			if e.Kind == 5 {
